@@ -330,8 +330,10 @@ class Ctx:
     def quick(self) -> bool:
         return self.tier == "quick"
 
+    scale_factor = 1.0  # the failing-input search runs the thorough budgets scaled down (see run_check)
+
     def budget(self, quick: int, thorough: int) -> int:
-        scale = float(os.environ.get("VERIF_SCALE", "1"))
+        scale = float(os.environ.get("VERIF_SCALE", "1")) * self.scale_factor
         return max(1, int((quick if self.quick else thorough) * scale))
 
     # -- bookkeeping
@@ -437,11 +439,14 @@ def run_check(prop: str, tier: str, replay: Optional[str]) -> int:
     # hard wall-clock limit: a hanging check is a harness error (exit 2), never a verdict
     limit = float(os.environ.get("VERIF_LIMIT_S", "900" if tier == "quick" else "5400"))
 
+    deadline = [time.time() + limit]
+
     def _watchdog() -> None:
         import faulthandler
 
-        time.sleep(limit)
-        print(f"CHECK-ERROR: {prop} exceeded its wall-clock limit of {limit:.0f}s; thread dump follows", flush=True)
+        while time.time() < deadline[0]:
+            time.sleep(min(5.0, max(0.1, deadline[0] - time.time())))
+        print(f"CHECK-ERROR: {prop} exceeded its wall-clock limit ({limit:.0f}s, extended for a failing-input search); thread dump follows", flush=True)
         faulthandler.dump_traceback(file=sys.stdout, all_threads=True)
         sys.stdout.flush()
         os._exit(2)
@@ -537,7 +542,11 @@ def run_check(prop: str, tier: str, replay: Optional[str]) -> int:
         # failing-input search: enlarged budget of the same oracle run
         found = None
         if core.ok and hasattr(mod, "search"):
+            # the search is the suites again with another seed and a larger budget (a fraction of the thorough budget, so that a
+            # broken proof obligation is answered in minutes); the watchdog is extended for it
             sctx = Ctx(prop, "thorough", seed + 1)
+            sctx.scale_factor = float(os.environ.get("VERIF_SEARCH_SCALE", "0.25"))
+            deadline[0] = max(deadline[0], time.time() + float(os.environ.get("VERIF_SEARCH_LIMIT_S", "2400")))
             try:
                 mod.search(sctx, broken)
                 for m in subs:
